@@ -604,17 +604,30 @@ class Prov:
         scan(block, idx)
         return tuple(sorted(res, key=lambda x: (0, 0, 0) if x == 'E' else (1,) + x))
 
+    def stale_reads(self, e, block, idx):
+        """element reads inside expression e whose memory version differs from the one a read of the same place at
+        (block, idx) -- the statement that consumes e -- would see: values carried across a write of their source"""
+        out = []
+        for x in e.walk():
+            if x.k == 'index' and isinstance(x.c, dict) and 'pl' in x.c:
+                l, before, p = x.c['pl']
+                now = self.reach_stores(l, before, p, block, idx)
+                if now is not None and tuple(now) != tuple(x.c['reach']):
+                    out.append(x)
+        return out
+
     def _project(self, base, projs, block, idx, depth, root_l=None):
         e = base
         for k_, p in enumerate(projs):
             if root_l is not None and isinstance(p, dict) and ('idx' in p or 'cidx' in p) and VERSIONED:
                 # an element read: which element stores of the same object it may see (memory versions)
                 rs = self.reach_stores(root_l, projs[:k_], p, block, idx)
-                if rs is not None and rs != ('E',):
+                if rs is not None:
+                    c_ = {'reach': rs, 'pl': (root_l, projs[:k_], p)}
                     if 'idx' in p:
-                        e = E('index', None, [e, self.local(p['idx'], block, idx, depth + 1)], c={'reach': rs})
+                        e = E('index', None, [e, self.local(p['idx'], block, idx, depth + 1)], c=c_)
                     else:
-                        e = E('index', '%s%d' % ('-' if p['from_end'] else '', p['cidx']), [e], c={'reach': rs})
+                        e = E('index', '%s%d' % ('-' if p['from_end'] else '', p['cidx']), [e], c=c_)
                     continue
             if p == 'deref':
                 e = mk_deref(e)
